@@ -155,7 +155,7 @@ class GetOutputsLoops(_Loops):
 # ------------------------------------------------------------------ L2 base
 class _L2(SC._Sched):
     """a coroutine of the scheduler: requires at the call, ensures at the return, cut rules inside"""
-    property_ids = ["C01", "C02", "C05", "C09", "C10", "C13", "C16"]
+    property_ids = ["C01", "C02", "C03", "C05", "C09", "C10", "C13", "C16"]
     configure = "configure"
     configure_small = "configure_small"
     changes_owned = []     # owned fields this coroutine may change
@@ -514,7 +514,37 @@ class GetOutputs(_L2):
             if od is not None:
                 # C13: a reply whose output time lies before the step time is never accepted
                 out["C13_past_output_time_rejected"] = Not(And(od.has_time, od.time < a.time(t)))
+                # C03: the reply is cached under ITS output time (if the simulator has a cache), nowhere else
+                otime = z3.If(od.has_time, od.time, a.time(t))
+                writes = [e for e in self._p.ghost.get("events", []) if e[0] == "cache_write"]
+                out["C03_cached_under_output_time"] = And(
+                    len(writes) <= 1,
+                    (M.has_outputs(me) if writes else Not(M.has_outputs(me))),
+                    (writes[0][1].eq(me) if writes else True), (writes[0][2] == otime) if writes else True)
+            else:
+                out["C03_no_cache_write_without_reply"] = len(self._p.ghost.get("events", [])) == 0
         return out
+
+    def _push_effect(self, v, A):
+        """inner push loop: this iteration added exactly one buffer entry for its destination, due at the
+        output time plus the connection's time shift, attributed to this simulator and source entity"""
+        M, h = self._M, self.cur()
+        a, me = M.alg, self._me
+        g = self._p.ghost
+        lp, od = g.get("last_push"), g.get("out_reply")
+        ev = g.get("events", [])[lp["events_before"]:] if lp else []
+        if lp is None or od is None:
+            return False
+        otime = z3.If(od.has_time, od.time, a.time(h["LS"][me]))
+        ok = len(ev) == 1 and ev[0][0] == "buffer_add" and ev[0][1].eq(lp["dest"]) and len(ev[0][2]) == 6
+        if not ok:
+            return False
+        args = ev[0][2]
+        port = g.get("last_push_port")
+        return And(args[0] == otime + a.dtier(lp["delay"], 0), args[1] == M.sid(me), args[2] == port[0],
+                   args[3] == lp["dest_eid"], args[4] == lp["dest_attr"])
+
+    iter_post = {1: lambda c, v, A: c._push_effect(v, A)}
 
     def loop_local(self, M, h):
         return {}
